@@ -1545,3 +1545,17 @@ pub fn monitor_outbound_htlc_prev_hops<Signer: crate::sign::ecdsa::EcdsaChannelS
 /// Defaults to `false` (production bytes).
 pub static WRITE_INBOUND_COMMITTED_UPDATE_ADDS: core::sync::atomic::AtomicBool =
 	core::sync::atomic::AtomicBool::new(false);
+
+/// Payment hashes of [`ChannelMonitor::get_onchain_failed_outbound_htlcs`] (crate-private; used
+/// only while a `ChannelManager` is read: the outbound HTLCs the reload will fail because the
+/// channel's closing transaction is considered irrevocably confirmed), sorted (C10).
+///
+/// [`ChannelMonitor::get_onchain_failed_outbound_htlcs`]: crate::chain::channelmonitor::ChannelMonitor
+pub fn monitor_onchain_failed_outbound_htlcs<Signer: crate::sign::ecdsa::EcdsaChannelSigner>(
+	monitor: &crate::chain::channelmonitor::ChannelMonitor<Signer>,
+) -> Vec<crate::types::payment::PaymentHash> {
+	let mut out: Vec<crate::types::payment::PaymentHash> =
+		monitor.get_onchain_failed_outbound_htlcs().into_iter().map(|(_, hash)| hash).collect();
+	out.sort();
+	out
+}
